@@ -344,8 +344,9 @@ def jobs(tier):
                     # (years 20xx, whole-hour offsets: these jobs hit the job budget with free digits; at year 0000 / 9999 the conversion to the format's zone or week-year leaves the
                     # four digits, which the dumper rightly refuses)
                     J.append(("job_format", dict(mode=mode, rep={"cal": "ord", "ord": "week", "week": "cal"}[rep], fmt=fmt,
-                                                 ranges={"DOY": (1, 2), "W": (1, 1), "WD": (1, 2), "M": (1, 1), "D": (1, 2), "y0": (2, 2), "y1": (0, 0),
-                                                         "tzh": (-14, 14), "tzm": (0, 0)})))
+                                                 ranges=dict({"DOY": (1, 2), "W": (1, 1), "WD": (1, 2), "M": (1, 1), "D": (1, 2), "tzh": (-14, 14), "tzm": (0, 0)},
+                                                             **({"y0": (0, 0), "y1": (0, 0), "y2": (2, 2), "y3": (0, 0)} if "X" in fmt else
+                                                                {"y0": (2, 2), "y1": (0, 0)})))))
     return J
 
 
